@@ -80,7 +80,7 @@ void run_proc(const Params& p, const std::vector<double>& x, std::vector<double>
         for (size_t b : cuts) {
             arr_real in(int(b - a));
             for (size_t i = a; i < b; ++i) in[int(i - a)] = x[i];
-            auto r = proc.process(in);
+            auto r = ((a + b) & 1) ? proc(in) : proc.process(in);   // both call forms: operator() and process()
             out.insert(out.end(), r.out.begin(), r.out.end());
             gain.insert(gain.end(), r.gain.begin(), r.gain.end());
             a = b;
